@@ -21,7 +21,7 @@ open Geff.Np Geff.Dicts
 /-- what `construct` reads from column `c` for elements `0 … n-1`: `none` = skip (missing).
 Both loops index `values[idx]` and `missing[idx]`; an index beyond either array is `IndexError`. -/
 def colEntries (c : Col) (n : Nat) : Except Err (List (Option PyVal)) :=
-  (List.range n).mapM fun i =>
+  mapE (fun i =>
     match c.rows[i]? with
     | none => .error .indexError
     | some r =>
@@ -31,7 +31,7 @@ def colEntries (c : Col) (n : Nat) : Except Err (List (Option PyVal)) :=
         match ms[i]? with
         | none => .error .indexError
         | some true => .ok none
-        | some false => .ok (some (rowToPy c.varlen r))
+        | some false => .ok (some (rowToPy c.varlen r))) (List.range n)
 
 /-! ## networkx -/
 
@@ -69,29 +69,38 @@ def NxGraph.setNodeAttr (g : NxGraph) (i : Int) (name : String) (v : PyVal) : Ex
 def NxGraph.setEdgeAttr (g : NxGraph) (e : Int × Int) (name : String) (v : PyVal) : Except Err NxGraph :=
   if g.hasEdge e then .ok { g with edges := setAt (sameEdge g.directed) g.edges e name v } else .error .keyError
 
+/-- one iteration of `_set_property_values` for nodes: skip a missing entry, else set -/
+def setNodeStep (name : String) (g : NxGraph) (p : Int × Option PyVal) : Except Err NxGraph :=
+  match p.2 with
+  | none => .ok g
+  | some v => g.setNodeAttr p.1 name v
+
+def setEdgeStep (name : String) (g : NxGraph) (p : (Int × Int) × Option PyVal) : Except Err NxGraph :=
+  match p.2 with
+  | none => .ok g
+  | some v => g.setEdgeAttr p.1 name v
+
 /-- `_set_property_values(graph, ids, name, prop_dict, nodes=True)` -/
-def setNodePropertyValues (g : NxGraph) (ids : List Int) (name : String) (c : Col) : Except Err NxGraph := do
-  let es ← colEntries c ids.length
-  (ids.zip es).foldlM (fun g (p : Int × Option PyVal) =>
-    match p.2 with
-    | none => .ok g
-    | some v => g.setNodeAttr p.1 name v) g
+def setNodePropertyValues (g : NxGraph) (ids : List Int) (name : String) (c : Col) : Except Err NxGraph :=
+  match colEntries c ids.length with
+  | .error e => .error e
+  | .ok es => (ids.zip es).foldlM (setNodeStep name) g
 
 /-- `_set_property_values(graph, ids, name, prop_dict, nodes=False)` -/
-def setEdgePropertyValues (g : NxGraph) (ids : List (Int × Int)) (name : String) (c : Col) : Except Err NxGraph := do
-  let es ← colEntries c ids.length
-  (ids.zip es).foldlM (fun g (p : (Int × Int) × Option PyVal) =>
-    match p.2 with
-    | none => .ok g
-    | some v => g.setEdgeAttr p.1 name v) g
+def setEdgePropertyValues (g : NxGraph) (ids : List (Int × Int)) (name : String) (c : Col) : Except Err NxGraph :=
+  match colEntries c ids.length with
+  | .error e => .error e
+  | .ok es => (ids.zip es).foldlM (setEdgeStep name) g
 
 /-- `NxBackend.construct` -/
-def nxConstruct (m : MemGeff) : Except Err NxGraph := do
-  let g : NxGraph := { directed := m.directed, nodes := [], edges := [] }
-  let g := m.nodeIds.foldl NxGraph.addNode g
-  let g ← m.nodeProps.foldlM (fun g (p : String × Col) => setNodePropertyValues g m.nodeIds p.1 p.2) g
-  let g := m.edgeIds.foldl NxGraph.addEdge g
-  m.edgeProps.foldlM (fun g (p : String × Col) => setEdgePropertyValues g m.edgeIds p.1 p.2) g
+def nxConstruct (m : MemGeff) : Except Err NxGraph :=
+  let g0 : NxGraph := { directed := m.directed, nodes := [], edges := [] }
+  let g1 := m.nodeIds.foldl NxGraph.addNode g0
+  match m.nodeProps.foldlM (fun g (p : String × Col) => setNodePropertyValues g m.nodeIds p.1 p.2) g1 with
+  | .error e => .error e
+  | .ok g2 =>
+    let g3 := m.edgeIds.foldl NxGraph.addEdge g2
+    m.edgeProps.foldlM (fun g (p : String × Col) => setEdgePropertyValues g m.edgeIds p.1 p.2) g3
 
 /-- keys of all attribute dicts, first occurrence order (the `set` comprehension; order immaterial) -/
 def propNames {κ : Type} (data : List (κ × Attrs)) : List String :=
@@ -101,16 +110,18 @@ def propNames {κ : Type} (data : List (κ × Attrs)) : List String :=
 def nxWrite (g : NxGraph) : Except Err MemGeff :=
   writeDicts g.directed g.nodes g.edges (propNames g.nodes) (propNames g.edges)
 
-/-- `NxGraphAdapter`: node ids, edge ids, `has_*_prop` / `get_*_prop` (`none` = has not) -/
-def NxGraph.nodeAttr (g : NxGraph) (i : Int) (name : String) : Option PyVal :=
-  match g.nodes.find? (·.1 = i) with
+/-- `name in d` / `d[name]` on the attribute dict of a found element (`none`: not found / has not) -/
+def attrOf? {κ : Type} (q : Option (κ × Attrs)) (name : String) : Option PyVal :=
+  match q with
   | none => none
   | some p => p.2.lookup name
 
+/-- `NxGraphAdapter`: node ids, edge ids, `has_*_prop` / `get_*_prop` (`none` = has not) -/
+def NxGraph.nodeAttr (g : NxGraph) (i : Int) (name : String) : Option PyVal :=
+  attrOf? (g.nodes.find? (fun x => x.1 = i)) name
+
 def NxGraph.edgeAttr (g : NxGraph) (e : Int × Int) (name : String) : Option PyVal :=
-  match g.edges.find? (fun x => sameEdge g.directed x.1 e) with
-  | none => none
-  | some p => p.2.lookup name
+  attrOf? (g.edges.find? (fun x => sameEdge g.directed x.1 e)) name
 
 /-! ## rustworkx -/
 
@@ -132,10 +143,13 @@ def setColumn (name : String) : List Attrs → List (Option PyVal) → List Attr
   | [], _ => []
 
 /-- the per-element dicts `RxBackend.construct` builds from a property list -/
+def fillStep (n : Nat) (ds : List Attrs) (p : String × Col) : Except Err (List Attrs) :=
+  match colEntries p.2 n with
+  | .error e => .error e
+  | .ok es => .ok (setColumn p.1 ds es)
+
 def fillDicts (n : Nat) (props : List (String × Col)) : Except Err (List Attrs) :=
-  props.foldlM (fun ds (p : String × Col) => do
-    let es ← colEntries p.2 n
-    return setColumn p.1 ds es) (List.replicate n [])
+  props.foldlM (fillStep n) (List.replicate n [])
 
 /-- `dict(zip(keys, vals))` -/
 def dictOfZip {κ υ : Type} [DecidableEq κ] : List κ → List υ → List (κ × υ)
@@ -155,10 +169,10 @@ def rxConstruct (m : MemGeff) : Except Err RxGraph := do
   let edges ←
     if m.edgeIds.isEmpty then pure []
     else do
-      let idx ← m.edgeIds.mapM fun e =>
+      let idx ← mapE (fun (e : Int × Int) =>
         match toRx.lookup e.1, toRx.lookup e.2 with
         | some a, some b => .ok (a, b)
-        | _, _ => .error Err.keyError
+        | _, _ => .error Err.keyError) m.edgeIds
       let ds ← fillDicts m.edgeIds.length m.edgeProps
       pure (idx.zip ds)
   return { directed := m.directed, slots := payloads.map some, edges := edges, idMap := some toRx }
@@ -179,8 +193,8 @@ def rxWrite (g : RxGraph) (nodeIdDict : Option (List (Nat × Int))) : Except Err
       | some d => match d.lookup i with
         | some x => .ok x
         | none => .error .keyError
-    let nodeData ← nl.mapM fun p => do return (← tr p.1, p.2)
-    let edgeData ← g.edges.mapM fun e => do return ((← tr e.1.1, ← tr e.1.2), e.2)
+    let nodeData ← mapE (fun (p : Nat × Attrs) => do return (← tr p.1, p.2)) nl
+    let edgeData ← mapE (fun (e : (Nat × Nat) × Attrs) => do return ((← tr e.1.1, ← tr e.1.2), e.2)) g.edges
     writeDicts g.directed nodeData edgeData (propNames nodeData) (propNames edgeData)
 
 /-- index of geff id `i` (`to_rx_id_map[i]`; the identity for a graph not built by `construct`) -/
@@ -236,11 +250,11 @@ def sgColOk (c : Col) : Bool :=
 
 /-- `np.stack([cols…], axis=1)` of scalar columns of one dtype -/
 def stackCols (n : Nat) (cols : List Col) : Except Err (List (List Val)) :=
-  (List.range n).mapM fun i => cols.mapM fun c =>
+  mapE (fun i => mapE (fun (c : Col) =>
     match c.rows[i]? with
     | some ([], [v]) => .ok v
     | some _ => .error (.unmodelled "non-scalar axis column")
-    | none => .error .valueError
+    | none => .error .valueError) cols) (List.range n)
 
 /-- `SgBackend.construct` (`axes = metadata.axes` names; `none` / `[]` = no axes) -/
 def sgConstruct (m : MemGeff) (axes : Option (List String)) : Except Err SgGraph := do
@@ -251,9 +265,9 @@ def sgConstruct (m : MemGeff) (axes : Option (List String)) : Except Err SgGraph
     | none => if m.nodeIds.isEmpty then pure [] else throw Err.valueError
     | some a => pure a
   -- every axis must be a node property
-  let cols ← names.mapM fun a => match m.nodeProps.lookup a with
+  let cols ← mapE (fun a => match m.nodeProps.lookup a with
     | some c => .ok c
-    | none => .error Err.keyError
+    | none => .error Err.keyError) names
   let rest := m.nodeProps.filter (fun p => !names.contains p.1)
   if !(rest.all (fun p => sgColOk p.2) && m.edgeProps.all (fun p => sgColOk p.2)) then
     throw (Err.unmodelled "non-numeric or var-length attribute")
@@ -273,11 +287,12 @@ def sgConstruct (m : MemGeff) (axes : Option (List String)) : Except Err SgGraph
 def sgWrite (g : SgGraph) (axisNames : List String) : Except Err MemGeff := do
   if g.ndims ≠ axisNames.length ∧ !g.nodes.isEmpty then throw Err.valueError
   -- unsquish: column i of `position` becomes the property `axisNames[i]`
-  let axisCols ← (List.range axisNames.length).mapM fun k => do
-    let rows ← g.position.mapM fun (r : List Val) => match r[k]? with
+  let axisCols ← mapE (fun k => do
+    let rows ← mapE (fun (r : List Val) => match r[k]? with
       | some v => .ok (([], [v]) : Row)
-      | none => .error Err.indexError
-    return ((axisNames.getD k ""), ({ dtype := g.posDtype, varlen := false, rows := rows, missing := none } : Col))
+      | none => .error Err.indexError) g.position
+    return ((axisNames.getD k ""), ({ dtype := g.posDtype, varlen := false, rows := rows, missing := none } : Col)))
+    (List.range axisNames.length)
   -- `props.update` : an axis name replaces an attribute of the same name; `position` itself is deleted
   let others := g.nodeAttrs.filter (fun p => !axisNames.contains p.1)
   return { directed := g.directed, nodeIds := g.nodes, edgeIds := g.edges,
